@@ -349,7 +349,7 @@ def dispatch(rec, case):
 
 def plan(tier, seed):
     n = 16
-    per = 30000 if tier == 'thorough' else 900
+    per = 90000 if tier == 'thorough' else 900
     return [{'seed': seed, 'shard': s, 'n': per} for s in range(n)]
 
 
